@@ -15,7 +15,7 @@ CONSTANTS
   Lens = {1}
   ReadMax = {4}
   Closers = {}
-  MuxDroppers = {"B"}
+  MuxDroppers = {}
   Cancellers = {}
   DgSenders = {}
   MaxDgrams = 0
